@@ -79,6 +79,27 @@ def histories(rng, tier):
             h.append('updr m op=replace ranges=%d:%d val=T path=slice' % (miss + 1, hi))
         h += ['moc m f=f1', 'mocread r=r f=f1 covord=%d' % covord, 'info r', 'nvalid r', 'nvalid m']
         out.append(h)
+    # high orders (uniq values beyond 2^32: order >= 15): a few single pixels and one whole cell of a coarser
+    # order, in base pixels on both sides of 8; blocks are 4^8 cells, so only a handful of coverage pixels
+    for _ in range(3 if tier == 'quick' else 12):
+        spord = rng.choice([15, 15, 16])
+        covord = spord - 8
+        c = gen.MapCfg('m', 'plain', covord, spord, dtype='b1')
+        h = [c.line()]
+        base = 4 ** spord
+        cells = rng.sample(range(12), 2)
+        pix = []
+        for b in cells:
+            k0 = b * base + rng.randrange(base)
+            pix += [k0, min(k0 + rng.choice([1, 2, 5]), 12 * base - 1)]
+        h.append('upd m op=replace pix=%s val=T' % ','.join(map(str, sorted(set(pix)))))
+        if rng.random() < 0.7:
+            o = rng.randint(spord - 3, spord - 1)                 # a cell that merges up to order o
+            g = 4 ** (spord - o)
+            cell = (pix[0] // g)
+            h.append('updr m op=replace ranges=%d:%d val=T path=slice' % (cell * g, (cell + 1) * g))
+        h += ['moc m f=f1', 'mocread r=r f=f1 covord=%d' % covord, 'info r', 'valid r', 'nvalid r', 'valid m', 'nvalid m']
+        out.append(h)
     return out
 
 
